@@ -218,7 +218,27 @@ def strip_pos(tree):
 def c05(X, template, construct, mode="exec"):
     """template contains '@@' once; construct is a key of CONSTRUCTS"""
     text, trans = CONSTRUCTS[construct]
-    if template.count("@@") != 1:
+    nholes = template.count("@@")
+    if nholes < 1:
+        return None
+    if nholes > 1:
+        # the same construct in several holes of one program: every hole must be admissible on its own
+        pieces = template.split("@@")
+        for i in range(nholes):
+            one = "@@".join(pieces[:i + 1]).replace("@@", "hX") + "@@" + "hX".join(pieces[i + 1:])
+            kp, tp = O.run_parse(X, one.replace("@@", HOLE), mode)
+            if kp != "ok" or _hole_status(tp)[0] != "load":
+                return None
+        kt, tt = O.run_parse(X, template.replace("@@", trans), mode)
+        kc, tc = O.run_parse(X, template.replace("@@", text), mode)
+        if kt != "ok":
+            return None
+        if kc != "ok":
+            return {"kind": "construct-rejected-in-context", "observed": [kc, O.exc_sig(tc) if isinstance(tc, BaseException) else None],
+                    "expected": "same tree as the written-out translation", "source": template.replace("@@", text)}
+        a, b = strip_pos(tc), strip_pos(tt)
+        if a != b:
+            return {"kind": "desugaring-differs", "diff": O.first_diff(a, b), "source": template.replace("@@", text)}
         return None
     kp, tp = O.run_parse(X, template.replace("@@", HOLE), mode)
     if kp != "ok":
